@@ -57,6 +57,12 @@ def step (t : Forest) (ts : List String) : Forest × List String :=
   | ["mfnd"] =>
     let t' := Mfnd3Proto.mfnd t
     (t', [s!"mfnd {b (decide (t' ≠ t))}"])
+  | ["extend"] =>
+    let (t', m, M) := extend t
+    let dec := (toList t').map fun (w, x) =>
+      let (v, ty) := decode m M x
+      s!"{showWord w}:{match v with | some y => toString y | none => "nan"}/{ty}"
+    (t', [s!"extend {m} {M}", s!"decode {joinSp dec}"])
   | ["univ", _] => (t, ["univ"])
   | ["obs"] => (t, obsAll t)
   | ["cplx"] => (t, [s!"cplx {showCplx t}"])
